@@ -199,7 +199,9 @@ def r_metadata(db, rep):
 
 
 SHIFT_FUNCS = [("LogSequence", "get_field", {"bitsField": (1, 64)}), ("LogSequence", "set_field", {"bitsField": (1, 64)}),
-               ("LogSequence", "maxVal", {"numbits": (1, 64)})]
+               ("LogSequence", "maxVal", {"numbits": (1, 64)}),
+               # the 32-bit packed-field primitives of the bundled libcds (used by DAC_VLS / DAC_BVLS / RRR / the hash bitmaps)
+               (None, "cds_utils::get_field", {"len": (1, 32)}), (None, "cds_utils::set_field", {"len": (1, 32)})]
 
 
 def interval(sb, f, n, env):
@@ -280,7 +282,7 @@ def eval_int(f, n, env):
 def r_shift(db, rep):
     import itertools
     for rec, name, ranges in SHIFT_FUNCS:
-        f = method(db, rec, name)
+        f = method(db, rec, name) if rec else db.fn(name)
         rep.visit(f)
         cfg = f.cfg
         # domain: width parameters over their legal range; locals defined as `x % M` with constant M over 0..M-1
@@ -295,6 +297,20 @@ def r_shift(db, rep):
                     ini = strip(d.get("init")) if d.get("init") is not None else None
                     if ini is not None and ini["k"] == "BinaryOperator" and ini["op"] == "%" and const_value(ini["rhs"]) and "d" in d:
                         dom[("local", d["d"])] = list(range(0, const_value(ini["rhs"])))
+                    # the same remainder spelled  x - M * (x / M)  with the quotient held in a local
+                    if ini is not None and ini["k"] == "BinaryOperator" and ini["op"] == "-" and "d" in d:
+                        r = strip(ini["rhs"])
+                        if r["k"] == "BinaryOperator" and r["op"] == "*":
+                            for cside, qside in ((r["lhs"], r["rhs"]), (r["rhs"], r["lhs"])):
+                                M = const_value(cside)
+                                q = strip(qside)
+                                if M and q["k"] == "DeclRefExpr" and q.get("dk") == "local":
+                                    qi = single_def_init(f, q["d"])
+                                    qi = strip(qi) if qi is not None else None
+                                    if qi is not None and qi["k"] == "BinaryOperator" and qi["op"] == "/" and const_value(qi["rhs"]) == M:
+                                        sbq = SeqBuilder(db, f, "x", nosubst=True)
+                                        if canon(sbq.sym(qi["lhs"])) == canon(sbq.sym(ini["lhs"])):
+                                            dom[("local", d["d"])] = list(range(0, M))
         shifts = [n for n in f.live_nodes() if n["k"] == "BinaryOperator" and n["op"] in ("<<", ">>")]
         for idx, n in enumerate(shifts):
             lt = f.type(n)
@@ -337,8 +353,9 @@ def r_shift(db, rep):
                 for k2, v in env.items():
                     names[f.params[k2[1]]["n"] if k2[0] == "param" else "local#%d" % k2[1]] = v
                 rep.viol("%s#shift-%d" % (f.qn, idx), f.nloc(n),
-                         "%s shifts a %d-bit operand by %d when %s (reachable under its guards): undefined behaviour; for set_field at width 64 "
-                         "the mask becomes 0 on x86, so storing into an occupied field ORs instead of replacing" % (f.qn, width, amt, names), f.qn)
+                         "%s shifts a %d-bit operand by %d when %s (reachable under its guards): undefined behaviour; x86 takes the count modulo "
+                         "the width, so a mask built this way comes out all-ones or zero and the field is stored / read wrongly at that width" % (
+                             f.qn, width, amt, names), f.qn)
 
 
 @rule("R-SELECTRANGE", 2, "sibling agreement: the loops of the compact hash loaders that enumerate the occupied cells with "
